@@ -7,6 +7,7 @@ import PtModel.Sexp
 import PtModel.Lower
 import PtModel.Spec
 import PtModel.Affine
+import PtModel.HandleKernel
 import PtModel.HandleDist
 import PtModel.HandleEq
 import PtModel.HandleMapper
@@ -135,6 +136,10 @@ def handle (q : Sx) : String :=
      | none => "err:parse")
   | .list (.atom "aff" :: args) =>
     (match handleAff args with
+     | some r => "ok " ++ r
+     | none => "err:parse")
+  | .list (.atom "kernel" :: args) =>
+    (match handleKernel args with
      | some r => "ok " ++ r
      | none => "err:parse")
   | .list (.atom "dist" :: args) =>
